@@ -30,6 +30,8 @@ pub struct VecSource {
     /// the k-th read (0-based) returns an error
     pub fail_at: Option<usize>,
     pub reads: usize,
+    /// when set, every `read_samples` call is recorded as (block_size argument, samples returned or -1)
+    pub log: Option<std::sync::Arc<std::sync::Mutex<Vec<(usize, i64)>>>>,
 }
 
 impl VecSource {
@@ -46,6 +48,7 @@ impl VecSource {
             fill_at_eof: true,
             fail_at: None,
             reads: 0,
+            log: None,
         }
     }
 }
@@ -76,6 +79,9 @@ impl Source for VecSource {
         let k = self.reads;
         self.reads += 1;
         if self.fail_at == Some(k) {
+            if let Some(l) = &self.log {
+                l.lock().unwrap().push((block_size, -1));
+            }
             return Err(SourceError::by_reason(SourceErrorReason::IO(None)));
         }
         if self.ch == 0 {
@@ -94,6 +100,9 @@ impl Source for VecSource {
         }
         let n = chunk.len() / self.ch;
         self.pos = end;
+        if let Some(l) = &self.log {
+            l.lock().unwrap().push((block_size, n as i64));
+        }
         Ok(n)
     }
     fn len_hint(&self) -> Option<usize> {
